@@ -698,6 +698,64 @@ func TestC12(t *testing.T) {
 			R.Violation(f.key, f.detail)
 		}
 	}
+
+	// periodic reporting into a file (-every with -output): whatever the intermediate reports look like, the
+	// file holds text throughout and its LAST report shows exactly the counts of all results
+	{
+		bounds := []time.Duration{0, time.Millisecond, 10 * time.Millisecond, 100 * time.Millisecond}
+		var lats []time.Duration
+		for i := 0; i < 3000; i++ {
+			b := bounds[i%len(bounds)]
+			lats = append(lats, b+time.Duration(i%3)-1)
+			if lats[len(lats)-1] < 0 {
+				lats[len(lats)-1] = 0
+			}
+		}
+		wantCounts := c12RefCounts(bounds, lats)
+		in := filepath.Join(dir, "every-in.bin")
+		{
+			var b bytes.Buffer
+			enc := vegeta.NewEncoder(&b)
+			t0 := time.Date(2024, 3, 1, 12, 0, 0, 0, time.UTC)
+			for i, l := range lats {
+				enc.Encode(&vegeta.Result{Attack: "a", Seq: uint64(i), Code: 200, Timestamp: t0.Add(time.Duration(i) * time.Millisecond), Latency: l})
+			}
+			os.WriteFile(in, b.Bytes(), 0o644)
+		}
+		for _, md := range [][2]string{{"hist[0,1ms,10ms,100ms]", ""}, {"json", "[0,1ms,10ms,100ms]"}} {
+			out := filepath.Join(dir, "every-out")
+			os.Remove(out)
+			err := c12Catch(func() error { return report([]string{in}, md[0], out, time.Nanosecond, md[1]) })
+			b, _ := os.ReadFile(out)
+			os.Remove(out)
+			R.Eval(1)
+			R.Trans(len(lats))
+			R.Distinct("every:" + md[0])
+			ctx := map[string]any{"type": md[0], "buckets": md[1], "every": "1ns", "results": len(lats), "output_bytes": len(b)}
+			switch {
+			case err != nil:
+				ctx["error"] = err.Error()
+				R.Violation("report:every:error", ctx)
+			case bytes.IndexByte(b, 0) >= 0:
+				ctx["first_nul_at"] = bytes.IndexByte(b, 0)
+				R.Violation("report:every:nul-bytes-in-the-output-file", ctx)
+			case md[0] == "json":
+				lines := strings.Split(strings.TrimRight(string(b), "\n"), "\n")
+				for _, f := range c12CheckMetricsJSON("report:every:last-report", []byte(lines[len(lines)-1]), bounds, wantCounts) {
+					R.Violation(f.key, map[string]any{"what": f.msg, "type": md[0]})
+				}
+			default:
+				txt := string(b)
+				if i := strings.LastIndex(txt, "Bucket"); i >= 0 {
+					txt = txt[i:]
+				}
+				for _, f := range c12CheckText("report:every:last-report", txt, bounds, wantCounts) {
+					R.Violation(f.key, map[string]any{"what": f.msg, "type": md[0]})
+				}
+			}
+		}
+		os.Remove(in)
+	}
 	// the report command on an input without any result: today it refuses the
 	// input before rendering (recorded); if it ever renders, the rendering has
 	// to show a zero count in every bucket.
